@@ -16,6 +16,7 @@
   Proof scripts live in ApiFu/C02/Lemmas.lean.
 -/
 import ApiFu.C02.Lemmas
+import ApiFu.C02.Data
 
 namespace ApiFu.C02
 
@@ -103,6 +104,38 @@ theorem async_eq_sync_outcome (rq : Request) (sched' : List Nat) (r r' : Res)
     r.out = r'.out := by
   rw [async_outcome_eq_spec rq r h, async_outcome_eq_spec _ r' h', spec_request_allSync]
 
+/-- **async_eq_spec (data).** For every request whose selection sets have pairwise distinct
+    response keys (validation and collectFields guarantee it), every async subset and every
+    schedule: if execution returns, the data — read back from the `OrderedMap.Set`s the run
+    actually performed — is exactly the reference JSON `Spec.data rq`, which mentions neither modes
+    nor the schedule. -/
+theorem async_data_eq_spec (rq : Request) (hd : Field.distinctKeysL rq.fields = true)
+    (r : Res) (h : (execute rq).1 = .done r) : (run rq).data = Spec.data rq := request_data rq hd r h
+
+/-- **async_eq_sync (data).** The same request under an arbitrary async subset and schedule, and
+    with every resolver answering synchronously, yield the same data. -/
+theorem async_eq_sync (rq : Request) (sched' : List Nat) (hd : Field.distinctKeysL rq.fields = true)
+    (r r' : Res) (h : (execute rq).1 = .done r) (h' : (execute (rq.allSync sched')).1 = .done r') :
+    (run rq).data = (run (rq.allSync sched')).data := by
+  rw [request_data rq hd r h, request_data (rq.allSync sched') (by
+    simp only [Request.allSync]; rw [(distinctKeys_allSync_aux.2.1 rq.fields).1]; exact hd) r' h',
+    spec_data_allSync]
+
+/-- **no_blank_key.** When execution returns data, every slot of every object visible in the data
+    has been set and reads back with a response key of the request (F-02a left such a slot as the
+    zero item `("", null)`): with no blank key in the request there is none in the response. The
+    value read back is the right one (`visible_slots_read_back`), which is how
+    `async_data_eq_spec` is proved. -/
+theorem no_blank_key (rq : Request) (v : Val) (h : (execute rq).1 = .done (.ok v))
+    (hk : "" ∉ Field.allKeysL rq.fields) :
+    ∀ cell ∈ Spec.cellsF rq.fields [] 0, ∃ key val,
+      slotOf cell.1 cell.2 (execute rq).2.log = some (key, val) ∧ key ≠ "" := by
+  intro cell hcell
+  obtain ⟨key, val, h1, h2⟩ := visible_slots_read_back rq v h cell hcell
+  refine ⟨key, val, h1, fun hk' => hk ?_⟩
+  have := writesF_key_aux.2.1 rq.fields [] 0 _ h2
+  simpa [hk'] using this
+
 /-- **rounds_le_promises.** Whenever execution returns, the number of idle rounds is at most the
     number of promises created: every round the model lets happen fulfils at least one outstanding
     promise (`idleRound_spec`), for every schedule. -/
@@ -122,6 +155,13 @@ def exampleRequest : Request :=
     fields := [.mk "obj" false .sync none (.object [.mk "nn" true .promise (some "boom") .null]),
                .mk "b" false .promise none (.scalar "1")],
     sched := [2, 1] }
+
+example : Field.distinctKeysL exampleRequest.fields = true := by
+  simp [exampleRequest, Field.distinctKeysL, Field.keysL, Comp.distinctKeys]
+
+example : Spec.data exampleRequest = "{\"obj\":null,\"b\":1}" := by
+  simp [Spec.data, exampleRequest, Spec.fieldsOk, Spec.comp, Out.caught, Out.isOk, Out.nonNull, Spec.jsonF, Spec.jsonC,
+    quote]
 
 example : Spec.request exampleRequest = .ok (.obj [] 2) := by
   simp [Spec.request, exampleRequest, Spec.fieldsOk, Spec.comp, Out.caught, Out.isOk, Out.nonNull]
